@@ -170,6 +170,14 @@ func runC12(p *Program, r *Result) {
 			// bufio's ReadSlice and ReadLine fail or split a line at the size of whatever buffer the
 			// reader happens to have (the caller's, when the source already is a bufio.Reader)
 			for _, c := range callsToAny(fn, "(*bufio.Reader).ReadSlice", "(*bufio.Reader).ReadLine") {
+				// a ReadSlice whose bufio.ErrBufferFull is told apart (mapped to the rule's own
+				// refusal of an over-long line, or followed by reading on) does not let the
+				// buffer decide; what happens then is judged by the rules of the reader
+				if calleeName(c.Common()) == "(*bufio.Reader).ReadSlice" && comparesWithBufferFull(tb, c) {
+					n++
+					r.OK(fn.String(), "buffer-bound-read:handled", r.pos(c), "bufio.ErrBufferFull of this ReadSlice is told apart")
+					continue
+				}
 				r.Bad(fn.String(), "buffer-bound-read", r.pos(c), "a line is read with "+short(calleeName(c.Common()))+": how long a line may be then depends on the buffer of the reader the caller supplied")
 			}
 			for _, c := range callsTo(fn, "invoke (io.Reader).Read") {
@@ -517,3 +525,47 @@ func cfgReachesInstr(p *Program, from, to ssa.Instruction) bool {
 
 // constMakeRe: make([]byte, K) / make([]byte, 0, K) with constant K, as printed by the term builder.
 var constMakeRe = regexp.MustCompile(`^Make0?\([0-9]+\)$`)
+
+// comparesWithBufferFull: the error result of the call is compared with bufio.ErrBufferFull
+// (== / != or errors.Is) somewhere in its function.
+func comparesWithBufferFull(tb *TB, c ssa.CallInstruction) bool {
+	v := c.Value()
+	if v == nil || v.Referrers() == nil {
+		return false
+	}
+	isFull := func(x ssa.Value) bool {
+		return strings.Contains(short(tb.Term(x).String()), "bufio.ErrBufferFull")
+	}
+	var errv []ssa.Value
+	for _, ref := range *v.Referrers() {
+		if ex, ok := ref.(*ssa.Extract); ok && isErrorType(ex.Type()) {
+			errv = append(errv, ex)
+		}
+	}
+	seen := map[ssa.Value]bool{}
+	for len(errv) > 0 {
+		cur := errv[len(errv)-1]
+		errv = errv[:len(errv)-1]
+		if seen[cur] || cur.Referrers() == nil {
+			continue
+		}
+		seen[cur] = true
+		for _, ref := range *cur.Referrers() {
+			switch u := ref.(type) {
+			case *ssa.BinOp:
+				if (u.X == cur && isFull(u.Y)) || (u.Y == cur && isFull(u.X)) {
+					return true
+				}
+			case *ssa.Phi:
+				errv = append(errv, u)
+			case *ssa.Call:
+				if calleeName(&u.Call) == "errors.Is" && len(u.Call.Args) == 2 && isFull(u.Call.Args[1]) {
+					return true
+				}
+			case *ssa.MakeInterface:
+				errv = append(errv, u)
+			}
+		}
+	}
+	return false
+}
